@@ -285,7 +285,48 @@ fn check_grid(prop: &str, rep: &mut Report, r: &mut Rng) {
 
 // ------------------------------------------------------------------------------------------------
 
+/// Leg `pyexport`: a sample of tuples with the library's and the oracle's sign for pyref/insphere_check.py.
+fn c10_export(a: &Args, rep: &mut Report) {
+    let out = a.out_dir.clone().unwrap_or_else(|| a.verif_dir.clone()).join("evidence").join("legs");
+    let _ = std::fs::create_dir_all(&out);
+    let mut items = vec![];
+    let mut idx = 0u64;
+    let mut per_stream: std::collections::BTreeMap<String, u64> = std::collections::BTreeMap::new();
+    tuple_streams(a, "C10py", false, 40_000, &mut |t, stream| {
+        idx += 1;
+        let seen = per_stream.entry(stream.to_string()).or_insert(0);
+        *seen += 1;
+        // thin the big streams, keep every adversarial tuple
+        let keep = match stream {
+            "random" | "slice{0,1,2}^3" | "slice{0,1,2}^3@top" => *seen % 8 == 0,
+            "exhaustive{0,1}^3" | "exhaustive{0,1}^3@top" => *seen % 16 == 0,
+            _ => true,
+        };
+        if !keep || items.len() >= 30_000 {
+            return;
+        }
+        let lib = check_tuple("C10", t, stream, rep);
+        rep.evaluations += 1;
+        let w = wide::in_sphere_sign(&t[0], &t[1], &t[2], &t[3], &t[4]);
+        items.push(json!({"t": t, "lib": lib, "wide": w}));
+        let mut d = Digest::new();
+        for p in t {
+            for &x in p {
+                d.u64(x as u64);
+            }
+        }
+        rep.nontrivial.insert(d.0);
+        if items.len() < 3 {
+            rep.sample(json!({"stream": stream, "tuple": t}));
+        }
+    });
+    std::fs::write(out.join("C10.py_export.json"), serde_json::to_string(&json!({"tuples": items})).unwrap()).expect("write export");
+}
+
 pub fn c10(a: &Args, rep: &mut Report) {
+    if a.leg.as_deref() == Some("pyexport") {
+        return c10_export(a, rep);
+    }
     rep.rule = "cases = 5-tuples of integer grid points handed to the real predicate: ALL tuples of {0,1}^3 (at the bottom and translated to the top of the 52-bit range), {0,1,2}^3 completely (thorough) or a seeded slice (quick), random tuples over 52/40/20/8/3-bit ranges, exactly co-spherical tuples and their +-1 perturbations, coplanar quadruples, repeated points; plus the position->grid map on generators, mirror images and periodic images of seeded boxes; plus the exact decisions logged inside real builds; distinct = distinct tuple (hash) ; non-trivial = tuple with non-zero orientation or zero determinant (counted separately), every tuple is compared with the integer oracle".into();
     rep.assumptions = vec!["integer oracle vcore::wide (6 x 64 bit sign-magnitude, cofactor expansion along another row than the library) and a second formulation through the rational circumsphere; thorough: Python big integers on a sample".into()];
     let thorough = a.tier == "thorough";
